@@ -100,6 +100,34 @@ pub fn corpus() -> Vec<(&'static str, IncCfg, Vec<Op>)> {
     past.extend(vec![Op::Claim { sender: 1 }, Op::NewEpoch, Op::Snapshot, Op::Claim { sender: 1 }, Op::Claim { sender: 2 },
                      Op::CloseFlow { sender: 3, ident: Ident::Id(1) }, Op::CloseFlow { sender: 3, ident: Ident::Id(2) }]);
     v.push(("flow_started_in_the_past", c.clone(), past));
+    // round 8: a flow topped up in its very LAST epoch with the same end epoch (the expansion record is keyed one past the end epoch),
+    // a claim, then the close: the refund is still latest funded amount - claimed; top-ups after the end are refused
+    let c = cfg_base(10, 0);
+    let mut last: Vec<Op> = vec![
+        honest(&c, 1, 1, 5_000, None, Some(6)),
+        Op::OpenPosition { sender: 2, funds: vec![], allow: vec![(10, 5_000)], amount: 5_000, dur: 86_400, receiver: None },
+        Op::NewEpoch, Op::Snapshot, Op::Claim { sender: 2 },
+    ];
+    for k in 0..7u128 {
+        last.push(Op::NewEpoch); last.push(Op::Snapshot);
+        last.push(Op::ExpandFlow { sender: 1, funds: vec![(1, 2_500 + k)], allow: vec![], ident: Ident::Id(1), end: Some(6), asset: 1, amount: 2_500 + k });
+    }
+    last.extend(vec![Op::Claim { sender: 2 }, Op::CloseFlow { sender: 1, ident: Ident::Id(1) }]);
+    v.push(("expanded_in_its_last_epoch_then_closed", c.clone(), last));
+    for e in [3u64, 4, 5] {
+        let c = cfg_base(10, 0);
+        let mut l2: Vec<Op> = vec![
+            honest(&c, 1, 1, 5_000, None, Some(e)),
+            Op::OpenPosition { sender: 2, funds: vec![], allow: vec![(10, 5_000)], amount: 5_000, dur: 86_400, receiver: None },
+        ];
+        for _ in 0..(e - 1) { l2.push(Op::NewEpoch); l2.push(Op::Snapshot); }
+        for d in 0..2u64 {
+            l2.push(Op::ExpandFlow { sender: 1, funds: vec![(1, 2_500)], allow: vec![], ident: Ident::Id(1), end: Some(e), asset: 1, amount: 2_500 });
+            if d == 0 { l2.push(Op::NewEpoch); l2.push(Op::Snapshot); }
+        }
+        l2.push(Op::CloseFlow { sender: 1, ident: Ident::Id(1) });
+        v.push(("expanded_at_end_epoch_then_closed", c.clone(), l2));
+    }
     // (ii) close of an expanded flow returns only the original amount
     let c = cfg_base(10, 0);
     v.push(("witness_close_expanded", c.clone(), vec![
